@@ -279,6 +279,8 @@ def configs(tier, seed):
         family(out, seed, systems, (1,), prios, T=4, W=2, n_tab=4, cap=20000)
         family(out, seed, systems, (2,), prios, T=4, W=2, n_tab=1, cap=20000, pick=3)
         family(out, seed, ["g1rf2m4"], (1,), ["default", "fix1", "lin"], T=5, W=2, n_tab=3, cap=20000)
+        # six entries in one rung: the smallest n where rf=2 and rf=3 both separate "must" from the open boundary twice
+        family(out, seed, ["g1rf2m4", "g1rf3m4"], (1,), ["default", "fix1", "lin"], T=6, W=2, n_tab=1, cap=20000)
     else:
         systems = list(SYSTEMS)
         prios = list(PRIOS)
